@@ -6,6 +6,7 @@ R-C08.2  row-shape agreement: CREATE TABLE columns / INSERT tuple / SELECT list 
 R-C08.3  a call trace round-trips through CallTraceRow with absent return/yield kept distinct from NoneType
 R-C08.4  canonical text: every json.dumps in the codec sorts keys
 R-C08.5  hidden builtin table: every entry is reachable by its key and decodes to the type it names
+R-C08.9  every generic form built by the inference functions is a form of the decided universe (no PEP 585 aliases)
 R-C08.8  a recorded class that is no longer found under its name never decodes to a different, similarly named class
 """
 from __future__ import annotations
@@ -393,6 +394,70 @@ def rule_no_impostor(ctx: Ctx, repo: Repo, rule: str = "R-C08.8") -> None:
     ctx.floor(rule, "recorded-class / look-alike scenarios decoded", n, 15)
 
 
+def rule_producer_forms(ctx: Ctx, repo: Repo) -> None:
+    """R-C08.9: producer / codec agreement.  Every generic form the inference functions can build (a subscripted typing
+    alias or builtin class in monkeytype/typing.py, outside the rewriter classes) is a form whose round trip R-C08.1 decides;
+    a form outside that universe - a PEP 585 alias such as frozenset[int], which compat.is_generic() does not recognise and the
+    encoder therefore writes as the bare class - would be stored without its arguments."""
+    import builtins as _b
+    ty = repo.module("monkeytype.typing")
+    heads_ok = set()
+    def collect(t: Any) -> None:
+        if isinstance(t, R) and t.kind == "generic":
+            heads_ok.add(t.fields["origin"].v)
+            for a in t.fields["args"].v:
+                collect(a)
+        elif isinstance(t, R) and t.kind == "td":
+            for _, v in t.fields["__annotations__"].fields["items"]:
+                collect(v)
+    for t in CM.type_universe():
+        collect(t)
+    heads_ok |= {"Optional"}  # Optional[X] is Union[X, None]
+    n = 0
+    for fi in ty.functions.values():
+        if fi.cls is not None and any(c.name.endswith("Rewriter") or "Rewrite" in c.name or c.name == "RemoveEmptyContainers" for c in repo.mro(fi.cls)):
+            continue  # rewriters rebuild what they are given; their results are C07's business
+        for x in walk_no_nested(fi.node):
+            if not (isinstance(x, ast.Subscript) and isinstance(x.ctx, ast.Load) and isinstance(x.value, (ast.Name, ast.Attribute))):
+                continue
+            d = dotted(x.value) or ""
+            tgt = ty.imports.get(d.split(".")[0], "")
+            full = (tgt + d[len(d.split(".")[0]):]) if tgt else d
+            head = None
+            if full.startswith("typing."):
+                head = full[len("typing."):]
+            elif "." not in d and d not in fi.params and isinstance(getattr(_b, d, None), type) and not any(
+                    isinstance(y, ast.Name) and y.id == d and isinstance(y.ctx, ast.Store) for y in ast.walk(fi.node)):
+                head = d + " (the builtin class, subscripted: a PEP 585 alias)"
+            if head is None:
+                continue
+            n += 1
+            if full.startswith("typing.") and head not in heads_ok and head in CM.TYPING_NAMES:
+                # a typing alias outside the fixed universe: its round trip is decided here, on one representative
+                arity = len(x.slice.elts) if isinstance(x.slice, ast.Tuple) else 1
+                rep = CM.gen(head, *([CM.STR, CM.INT, CM.NONE_T][:arity] if arity <= 3 else [CM.INT] * arity))
+                k1, enc1 = CodecScenario(repo, ENC, "type_to_json").result({repo.fn(ENC, "type_to_json").positional_params()[0]: rep})
+                k2, dec1 = CodecScenario(repo, ENC, "type_from_json").result({repo.fn(ENC, "type_from_json").positional_params()[0]: enc1}) if k1 == "return" else ("raise", enc1)
+                ctx.check(k1 == "return" and k2 == "return" and same_type(dec1, rep), "R-C08.9", fi.fq,
+                          "a generic form inference builds round-trips through the codec", construct=f"`{norm(x)[:60]}`: {show(rep)} -> {show(dec1) if k2 == 'return' else 'raises ' + str(dec1)}", node=x)
+                continue
+            if "PEP 585" in head:
+                # a subscripted builtin class is a types.GenericAlias: does the package's own notion of a generic (compat.is_generic,
+                # which the encoder consults before it writes the arguments) cover it?
+                from .compat_rules import CompatScenario
+                k_g, r_g = CompatScenario(repo, "is_generic").result(R("pep585", origin=K(d), args=K((CM.INT,))))
+                if k_g != "return" or not (isinstance(r_g, K) and isinstance(r_g.v, bool)):
+                    raise AnalysisError(f"R-C08.9: compat.is_generic on a PEP 585 alias: {k_g} {r_g}")
+                ctx.check(r_g.v, "R-C08.9", fi.fq,
+                          "every generic form inference builds is recognised as a generic by the encoder (otherwise it is stored as the bare class, without its arguments)",
+                          construct=f"`{norm(x)[:60]}` builds {d}[...], a types.GenericAlias, for which compat.is_generic() is False: type_to_dict writes `{d}` and drops the element types", node=x)
+                continue
+            ctx.check(head in heads_ok, "R-C08.9", fi.fq,
+                      "every generic form inference builds is one the codec is decided for (encoded with its arguments, decoded to the same form)",
+                      construct=f"`{norm(x)[:60]}` builds {head}[...]; the forms decided by R-C08.1 are {sorted(heads_ok)}", node=x)
+    ctx.floor("R-C08.9", "generic forms built by the inference functions", n, 6)
+
+
 def run(ctx: Ctx, repo: Repo, tier: str) -> None:
     ctx.trust("json.loads(json.dumps(x)) == x for documents of dicts with str keys, lists, strings, booleans and null (tuples become lists)",
               "typing: alias[args] rebuilds the generic; Tuple[()] has empty __args__; bare aliases have no __args__ (CPython >= 3.11)",
@@ -406,4 +471,5 @@ def run(ctx: Ctx, repo: Repo, tier: str) -> None:
     ctx.attempt(rule_hidden_builtins, ctx, repo)
     ctx.attempt(rule_dumps, ctx, repo)
     ctx.attempt(rule_no_impostor, ctx, repo)
+    ctx.attempt(rule_producer_forms, ctx, repo)
     ctx.settle()
